@@ -120,6 +120,31 @@ def _poll_sites(e: Engine, g: CFG) -> List[Node]:
             if any(t.func.qname == POOL_CLIENT + '.poll'
                    for t in res.targets):
                 out.append(n)
+        elif isinstance(a, ast.Assign) and isinstance(a.value, ast.Call):
+            # `a, b = self._next_request()` where the helper hands on what
+            # poll() returned (or "no request": None / (None, None))
+            from . import common
+            vals = common.values_of(g, a.value, n.frame)
+            if len(vals) == 1 and vals[0][0] is a.value:
+                continue
+
+            def is_poll(v, fr):
+                if isinstance(v, ast.Call) and \
+                        isinstance(v.func, ast.Attribute) and \
+                        v.func.attr == 'poll':
+                    r2 = e.r.resolve_call(v, fr.ctx)
+                    return any(t.func.qname == POOL_CLIENT + '.poll'
+                               for t in r2.targets)
+                return False
+
+            def is_none(v):
+                return (isinstance(v, ast.Constant) and v.value is None) or (
+                    isinstance(v, ast.Tuple) and all(
+                        isinstance(x, ast.Constant) and x.value is None
+                        for x in v.elts))
+            if any(is_poll(v, fr) for v, fr in vals) and all(
+                    is_poll(v, fr) or is_none(v) for v, fr in vals):
+                out.append(n)
     return out
 
 
